@@ -16,8 +16,11 @@ PROOF_FILES = ["Proofs/LowerFrame.v", "Proofs/LowerLemmas.v", "Proofs/LowerCorre
                "Proofs/EndToEndOptExample.v", "Proofs/EndToEndExamples.v",
                # slot assignment: rewriting abstract slots to assigned numbers is a semantic identity; composed with the above
                "Proofs/SlotCompose.v", "Proofs/SlotComposeAssign.v", "Proofs/SlotComposeEnd.v", "Proofs/SlotComposeCover.v",
-               "Proofs/SlotComposeFinal.v", "Proofs/SlotComposePipeline.v", "Proofs/SlotComposeExamples.v"]
-EXTRA_PROPS = ["Props/C01_normalize.v", "Props/C01_flatten.v", "Props/C01_end_to_end.v", "Props/C01_slots.v"]
+               "Proofs/SlotComposeFinal.v", "Proofs/SlotComposePipeline.v", "Proofs/SlotComposeExamples.v",
+               # stage E: the emitted TEXT parses back to the instruction list; Machine.run on the parsed program gives the denoted verdict
+               "Proofs/StageELink.v", "Proofs/StageEText.v", "Proofs/StageELiterals.v", "Proofs/StageECompose.v", "Proofs/StageEFlatten.v",
+               "Proofs/StageEPipeline.v", "Proofs/StageEExamples.v"]
+EXTRA_PROPS = ["Props/C01_normalize.v", "Props/C01_flatten.v", "Props/C01_end_to_end.v", "Props/C01_slots.v", "Props/C01_text.v"]
 
 
 def sem_check(ck, model, rng, c, nctx, stats):
@@ -199,7 +202,7 @@ def main(argv):
         ck.violation("correspondence broken: compile_model text differs from compileTeal on %d generated programs (theorems about Comp/ no longer transfer); the semantic search over all generated contexts found no wrong behaviour" % len(mismatches),
                      {"kind": "correspondence", "broken": "text equality compileTeal vs Comp.Compile.compile_model", "case": c.describe()}, no_failing_input=True)
     if not ck.proof_ok and not semfails:
-        ck.violation("proof obligation broken: Props/C01*.v no longer check", {"kind": "proof", "broken": "Props/C01.v, Props/C01_normalize.v, Props/C01_flatten.v, Props/C01_end_to_end.v, Props/C01_slots.v", "log": ck.proof_log[-1500:]}, no_failing_input=True)
+        ck.violation("proof obligation broken: Props/C01*.v no longer check", {"kind": "proof", "broken": "Props/C01.v, Props/C01_normalize.v, Props/C01_flatten.v, Props/C01_end_to_end.v, Props/C01_slots.v, Props/C01_text.v", "log": ck.proof_log[-1500:]}, no_failing_input=True)
     ck.coverage["disagreements_checked"] = len(mismatches) + len(semfails)
     ck.coverage["programs"] = sum(outcomes.values())
     model.close()
